@@ -231,6 +231,7 @@ class SingleEdits(Sub):
     """every single-character edit of every seed form: the first ring of C17's quantifier, enumerated"""
     name = "single_edits_exhaustive"
     kind = "enum"
+    case_timeout = 900.0
     n = {"quick": 0, "thorough": 0}
     shards = {"quick": 2, "thorough": 4}
     distinct_by_construction = True
